@@ -153,8 +153,69 @@ def run_reruns(ctx, res, cases):
         c.pop("_obs", None)
 
 
+CFG_MODES = {"direct": ["t"], "run-task": ["run", "task", "t"], "stage": ["p"], "stage-overrides": ["po"], "nested": ["outer"]}
+FOOTER_CFG = """
+Definition BAD := Eval vm_compute in bad_ids (fun c => trace_ok (fst c) (mkObs (fst (snd c)) false false false 0%Z []) && Bool.eqb (o_err (run_task (fst c))) (snd (snd c))) cases.
+Print BAD.
+"""
+
+
+def cfg_cases(ctx):
+    """the same kind of task WRITTEN IN A CONFIGURATION FILE and run by the binary: directly, via `run task`, as a stage, as a stage with
+    per-stage overrides, inside a nested pipeline"""
+    rng = vlib.rng_for(ctx.seed, "C06cfg")
+    cases = []
+    for _ in range(150 if ctx.tier == "thorough" else 45):
+        a = tasklib.rand_abstract(rng, rng.randint(1, 4), rng.choice([1, 1, 2, 3]), novar=rng.random() < 0.4, nostart=0.0)
+        cases.append({"kind": "cfg", "a": a, "mode": rng.choice(sorted(CFG_MODES))})
+    return cases
+
+
+def run_cfg(ctx, res, cases):
+    import clilib
+    jobs = []
+    for k, c in enumerate(cases):
+        doc = {"tasks": {"t": tasklib.to_config_task(c["a"])},
+               "pipelines": {"p": [{"task": "t"}], "po": [{"task": "t", "env": {"SOME": "x"}, "variables": {"v": "1"}}], "outer": [{"pipeline": "p", "name": "inner"}]}}
+        jobs.append({"id": k, "files": {"cfg.json": clilib.jcfg(doc)}, "argv": ["-c", "cfg.json", "--raw"] + CFG_MODES[c["mode"]], "keep": ["out"]})
+    out = clilib.run_cli(ctx.workdir, jobs)
+    items = []
+    for k, c in enumerate(cases):
+        r = out[k]
+        res.evaluations += 1
+        res.count("cfg-" + c["mode"])
+        res.nontrivial_keys.add(json.dumps([c["a"], c["mode"]], sort_keys=True))
+        if r["timeout"] or clilib.crashed(r):
+            res.violations.append({"class": None, "what": "taskctl hung or crashed running a task written in a configuration file", "case": c, "observed": r})
+            continue
+        try:
+            tr = vlib.clist((r["files"].get("out") or "").split(), tasklib.parse_tok)
+        except ValueError as e:
+            res.mismatches.append({"case": c, "what": str(e), "observed": r})
+            continue
+        items.append("(%d%%N, (%s, (%s, %s)))" % (k, tasklib.coq_task(c["a"]), tr, vlib.cbool(r["rc"] != 0)))
+    bad = set()
+    for rc, o, start, cnt in vlib.coq_eval_sharded(ctx.workdir, "cases_c06cfg", HEADER, items, lambda: FOOTER_CFG, shard=500):
+        if rc != 0:
+            res.mismatches.append({"what": "cases.v did not evaluate", "detail": o[-1500:]})
+            continue
+        pr = vlib.coq_printed(o)
+        if "BAD" not in pr:
+            res.mismatches.append({"what": "cases.v output lacks BAD", "detail": o[-800:]})
+        bad.update(vlib.nums(pr.get("BAD", "")))
+        res.traces_validated += cnt
+    for k in sorted(bad):
+        res.violations.append({"class": None, "what": "a task written in a configuration file and run by the binary: the executed commands / their order (or the reported failure) differ from: "
+                               "before, then variation-major commands up to the first failure, then after", "case": cases[k], "observed": out[k]})
+
+
 def run(ctx):
     res = vlib.Result()
+    if ctx.replay_cases and all(c.get("kind") == "cfg" for c in ctx.replay_cases):
+        run_cfg(ctx, res, ctx.replay_cases)
+        res.rule = "replay of configuration-file cases"
+        res.samples = ctx.replay_cases[:2]
+        return res
     if ctx.replay_cases and all(c.get("kind") == "rerun" for c in ctx.replay_cases):
         run_reruns(ctx, res, ctx.replay_cases)
         res.rule = "replay of run-twice cases"
@@ -166,7 +227,8 @@ def run(ctx):
     res.rule = ("exhaustive over the statement's grammar for <=3 commands x {none,1,2,3} variations: every subset of failing positions "
                 "(sampled above 64 subsets in quick) x allow_failure x before/after absent/ok/failing x condition absent/true/false; every exit "
                 "status 1..255 as first failure; random tasks up to 8 commands x 5 variations incl. commands that cannot start (undefined "
-                "template variable).  distinct = distinct abstract task; non-trivial = at least 2 jobs and at least one failing command or hook.")
+                "template variable); the same task object run twice; random tasks written in a configuration file and run by the binary (directly, `run task`, "
+                "stage, stage with overrides, nested pipeline).  distinct = distinct abstract task; non-trivial = at least 2 jobs and at least one failing command or hook.")
     bad, obs = evaluate(ctx, cases, res)
     for c in cases:
         a = c["a"]
@@ -181,5 +243,6 @@ def run(ctx):
         res.mismatches.append({"what": "skipped/errored/exit-code/error differ from the model (C07's subject)", "case": cases[cid], "observed": obs.get(cid)})
     if not ctx.replay_cases:
         run_reruns(ctx, res, rerun_cases(ctx))
+        run_cfg(ctx, res, cfg_cases(ctx))
     res.samples = [cases[3], cases[len(cases) // 2]]
     return res
